@@ -300,13 +300,24 @@ def _np():
 CLASSES = ['cubic', 'hexagonal', 'tetragonal', 'orthorhombic', 'rhombohedral', 'monoclinic', 'triclinic']
 
 
+def draw_lam(rng, mu):
+    """Lame's lambda of the isotropic base medium (one draw): three times in four 0.3 .. 1.6 (Poisson's ratio 0.1 ..
+    0.4), otherwise NEGATIVE, -0.03 .. -0.6 of mu: an auxetic medium, 3K < 2 mu, C12 < 0, Poisson's ratio -0.015 .. -0.75,
+    still positive-definite (3 lam + 2 mu > 0).  Positive-definiteness, not the sign of a constant, is what the
+    property quantifies over."""
+    u = rng.random()
+    if u < 0.75:
+        return 0.3 + 1.3 * (u / 0.75)
+    return -mu * (0.03 + 0.57 * (u - 0.75) / 0.25)
+
+
 def gen_cij(rng, cls, aniso=1.0, scale=1.0, tiny=False):
     """6x6 stiffness of the given crystal class: isotropic base (lam, mu) plus class-shaped perturbations of relative
     size `aniso`; resampled until clearly positive-definite."""
     np = _np()
     for _ in range(200):
         mu = rng.uniform(0.4, 1.2)
-        lam = rng.uniform(0.3, 1.6)
+        lam = draw_lam(rng, mu)
         c = np.zeros((6, 6))
         c[:3, :3] = lam
         for i in range(3):
@@ -668,10 +679,14 @@ def gen_sweep(rng, cls=None, bkind=None, tol=None):
     cs, ls = gen_scales(rng)
     sw = gen_spec(rng, cls='isotropic', scales=(1.0, 1.0))
     sw['dcls'] = cls or rng.choice(CLASSES)
-    sw['lam'], sw['mu'] = rng.uniform(0.3, 1.6), rng.uniform(0.4, 1.2)
+    sw['mu'] = rng.uniform(0.4, 1.2)
+    sw['lam'] = draw_lam(rng, sw['mu'])
     sw['scale'] = sw['cscale'] = cs
     sw['dir'] = gen_aniso_dir(rng, sw['dcls'])
     sw['cij'] = None
+    while sw['lam'] < 0 and min(np.linalg.eigvalsh(iso_cij(sw['lam'], sw['mu']) + sg_ * EPS_SWEEP[-1] * sw['mu'] * np.array(sw['dir'])).min()
+                                for sg_ in (1.0, 0.5)) < 0.15 * sw['mu']:
+        sw['lam'] /= 2          # an auxetic base medium must stay clearly positive-definite over the whole sweep
     if tol is not None:
         sw['tol'] = tol
     bkind = bkind or rng.choice(SWEEP_BKINDS)
@@ -3010,6 +3025,64 @@ def _array_sizes(ctx, rng):
     ctx.extra['array_sizes'] = {'sizes': len(sizes), 'largest': int(sizes[-1]), 'rows': int(rows), 't_s': round(time.time() - t0, 2)}
 
 
+# oblique solver axes from small integers: m = (a, b, 0)/|.|, n = (-b, a, c)/|.| (m . n = 0 exactly before the
+# normalisation; after it neither is a Cartesian axis and ξ = m x n carries the rounding of six square roots)
+OBLIQUE_ABC = [(1, 5, 7), (1, 6, 7), (1, 7, 7), (2, 3, 7), (1, 2, 3), (3, 4, 5), (2, 5, 1), (1, 3, 0), (5, 12, 2), (7, 24, 3),
+               (1, 1, 1), (2, 7, 4)]
+# Burgers vectors by their components along (m, n, ξ), in the slip plane: both senses of the pure screw (b exactly
+# parallel / ANTIPARALLEL to ξ: character 0 and 180 degrees, the two ends of arccos), both senses of the edge, the four
+# mixed ones
+CHARACTER_B = [(0, 0, 1), (0, 0, -1), (0, 0, -1), (1, 0, 0), (-1, 0, 0), (0.5, 0, 0.75), (-0.5, 0, -0.75), (0.5, 0, -0.75),
+               (-0.5, 0, 0.75), (1e-7, 0, -1), (0, 0, -1)]
+CHARACTER_SIZES = [1.0, 0.75, 2.5, 1 / 3, 1e-3, 2.0 ** -30, 3.0]
+
+
+def gen_oblique_mn(rng, abc=None):
+    a, b, c = abc or rng.choice(OBLIQUE_ABC)
+    m, n = [float(a), float(b), 0.0], [float(-b), float(a), float(c)]
+    k = rng.randrange(3)
+    m, n = m[k:] + m[:k], n[k:] + n[:k]           # the zero component anywhere (cyclic: handedness kept)
+    if rng.random() < 0.3:
+        m, n = n, [-v for v in m]                 # (n, -m) is as good a pair as (m, n)
+    nm, nn = math.sqrt(sum(v * v for v in m)), math.sqrt(sum(v * v for v in n))
+    return [v / nm for v in m], [v / nn for v in n]
+
+
+def _character_sweep(ctx, rng, reps=1):
+    """the dislocation character over its whole range INCLUDING both ends, in oblique solver frames: every entry of
+    CHARACTER_B x a size, through both solvers, un-rotated / rotated crystal, with / without a cell; the `characterangle`
+    clause of the orientation oracle (a number in [0, 180], the angle between b and ξ in degrees and radians) and the
+    orientation clauses are evaluated on each.  Replay: op `orientation`."""
+    frames = [(abc, None) for abc in OBLIQUE_ABC] + [(None, 'rot')] * 4
+    it = 0
+    for _ in range(reps):
+        for abc, mnk in frames:
+            mn = gen_oblique_mn(rng, abc) if mnk is None else gen_mn(rng, 'rot')
+            for j in range(len(CHARACTER_B)):
+                it += 1
+                if reps == 1 and (it + j) % 2 and j > 2:
+                    continue                                # quick: both screws always, half of the others
+                kind = 'iso' if it % 3 == 0 else 'stroh'
+                route = ['default', 'default', 'transform', 'default', 'axes'][it % 5]
+                spec = gen_spec(rng, cls='isotropic' if kind == 'iso' else ['cubic', 'orthorhombic', 'triclinic'][it % 3],
+                                route=route, mn='rot', scales=(1.0, 1.0), tiny=False)
+                spec['m'], spec['n'] = [list(v) for v in mn]
+                if it % 4 == 1:
+                    spec['box'] = None
+                f = CHARACTER_SIZES[it % len(CHARACTER_SIZES)]
+                spec.update(burgers='frame', bkind='frame:character', bframe=[f * c for c in CHARACTER_B[j]])
+                spec.pop('bsize', None)
+                try:
+                    s = _build_checked(ctx, spec, kind)
+                except Exception as e:  # noqa
+                    if not (isinstance(e, ValueError) and kind == 'stroh' and spec['cls'] == 'isotropic'):
+                        ctx.violate(f'{kind}:raises', f'{kind} solver raised {type(e).__name__}: {e} for a Burgers vector with '
+                                    f'components {spec["bframe"]} along (m, n, ξ), m={spec["m"]}, n={spec["n"]}',
+                                    {'op': 'orientation', 'solver': kind, 'spec': spec})
+                    continue
+                _guarded(ctx, 'orientation', kind, spec, lambda: _orientation_oracle(ctx, spec, s))
+
+
 def _build_checked(ctx, spec, kind):
     """build() with every argument as an object the caller keeps: the constructor must not modify any of them."""
     import atomman as am
@@ -3101,6 +3174,11 @@ def search(ctx, broken):
         _miller_sweep(ctx, rng, ctx.n(2, 12) * mult)
     except Exception as e:  # noqa
         ctx.violate('orientation:sweep-raises', f'Miller-index sweep: {type(e).__name__}: {e}', {'op': 'miller-sweep'})
+    try:
+        # own random stream (the draws of the other operations stay what they were)
+        _character_sweep(ctx, random.Random(ctx.seed * 6007 + 3), reps=ctx.n(1, 6) * mult)
+    except Exception as e:  # noqa
+        ctx.violate('orientation:character-raises', f'character sweep: {type(e).__name__}: {e}', {'op': 'search'})
     try:
         _array_sizes(ctx, rng)
     except Exception as e:  # noqa
